@@ -25,6 +25,7 @@ pub fn suites() -> Vec<(&'static str, Suite)> {
         ("c14_builder", c14::run_builder as Suite),
         ("from_points", c14::run_from_points as Suite),
         ("c14_transform", c14::run_transform as Suite),
+        ("tight_bounds", c14::run_tight_bounds as Suite),
         ("c19", c19::run as Suite),
         ("px", px::run as Suite),
         ("c18", c18::run as Suite),
@@ -51,9 +52,12 @@ pub fn suites() -> Vec<(&'static str, Suite)> {
         ("tiles", c01::run_tiles as Suite),
         ("stroke_geo", c05::run_stroke_geo as Suite),
         ("gather", c16::run_gather as Suite),
+        ("cs_px", px::run_cs_px as Suite),
+        ("mask_ops", px::run_mask_ops as Suite),
         ("nearest_map", c16::run_nearest_map as Suite),
         ("stroker_hist", c20::run_stroker_hist as Suite),
         ("draw_hist", c20::run_draw_hist as Suite),
+        ("stroke_repeat", c20::run_stroke_repeat as Suite),
     ]
 }
 
